@@ -38,9 +38,14 @@ func OracleC19(tr *Trace) Verdict {
 			who := fmt.Sprintf("%s#%d", tr.ID(st.Inst), st.Obj)
 			ended := c.ToSeq >= 0 && c.ToSeq < s.Seq
 			if !ended {
-				stopSeq, _ := ci.firstStopAfter(c.Obj, c.FromSeq)
+				stopSeq, stopAPI := ci.firstStopAfter(c.Obj, c.FromSeq)
 				if stopSeq < s.Seq {
 					ended = true
+					// (a Start context that ends by its deadline: the harness records the call 1ns before the
+					// deadline passes - until then nothing has happened)
+					if stopAPI != nil && stopAPI.Action != nil && stopAPI.Action.ByDeadline && s.T <= stopAPI.CallT+1 {
+						ended = false
+					}
 				}
 			}
 			var si *SnapInst
